@@ -267,9 +267,15 @@ def gen_equiv(seed: int, profile: str):
         names = cur.names()
         if u.names() != names:
             return _fallback(g, cur, profile)
+        utid = u.tid
+        if len(names) > 1 and r.random() < 0.6:
+            # the operands list the same names in different orders (matching is by name)
+            perm = list(names)
+            r.shuffle(perm)
+            utid = S(id=T(), op="select", src=u.tid, cols=perm)
         d = r.random() < 0.5
-        a = S(id=T(), op="union", src=t, right=u.tid, distinct=d)
-        b0 = S(id=T(), op="union", src=u.tid, right=t, distinct=d)
+        a = S(id=T(), op="union", src=t, right=utid, distinct=d)
+        b0 = S(id=T(), op="union", src=utid, right=t, distinct=d)
         sel = list(names)
         b = S(id=T(), op="select", src=b0, cols=sel)
         pair(a, b)
